@@ -485,6 +485,7 @@ def run_negative(spec, res):
         desc = ["stock with gammap=0.7"]
     else:
         ss, desc, count = compose(rng, base, negative="gamma" if kind == "gamma" else None)
+        open_limits(ss)
     tag = "negative(%s) on %s" % (kind, base)
     tag_extra = ""
     try:
@@ -527,13 +528,20 @@ def run_negative(spec, res):
     if "raised" in out:
         res.count("negative_reported_by_exception")
     else:
+        if out["nan_real"]:
+            # NaN in the very residual arrays the initialisation test looked at: not zero, whatever the limiters do
+            res.count("negative_cases_with_nan_residual")
+            if out["test_ok"] is not False:
+                res.violate("init_residual_not_reported", "%s: ANDES' own residual after initialisation contains NaN but test_ok is %r (exit_code %d)" % (
+                    tag, out["test_ok"], out["exit_code"]))
+                return
         if out["active"]:
             res.count("out_of_scope_limiter_or_time_driven")
             res.nontrivial = True
             res.sample = dict(kind=kind, base=base, outcome="limiter active at the initial point: %s" % out["active"][:3])
             return
         bad = out["worst"] > 10 * float(ss.TDS.config.tol) or out["nan"] or out["nan_real"]
-        if out["nan"] or out["nan_real"]:
+        if out["nan"] and not out["nan_real"]:
             res.count("negative_cases_with_nan_residual")
         if bad:
             res.count("negative_cases_with_residual")
